@@ -29,6 +29,8 @@ func main() {
 		ruleList  = flag.String("rules", "", "run only these comma separated rules (debug)")
 		goos      = flag.String("goos", "", "GOOS override")
 		noKnown   = flag.Bool("no-known", false, "ignore known_findings.json (debug)")
+		asJSON    = flag.Bool("json", false, "with -rules: print failing obligations as JSON lines")
+		emitMan   = flag.String("emit-manifest", "", "write MANIFEST.json to this path")
 	)
 	flag.Parse()
 	start := time.Now()
@@ -43,6 +45,14 @@ func main() {
 		*tier = t
 	}
 
+	if *emitMan != "" {
+		base := "cd /repo && GOPROXY=off GOSUMDB=off GOTOOLCHAIN=local go test -vet=off -count=1 ./... && cd schema && GOPROXY=off GOSUMDB=off GOTOOLCHAIN=local go test -vet=off -count=1 ./..."
+		if err := emitManifest(*emitMan, base); err != nil {
+			fmt.Fprintln(os.Stderr, err)
+			os.Exit(2)
+		}
+		return
+	}
 	if *replay != "" {
 		os.Exit(doReplay(*replay, *repo, *verif))
 	}
@@ -75,6 +85,13 @@ func main() {
 			known, _ = loadKnown(filepath.Join(*verif, "known_findings.json"))
 		}
 		classify(res, known)
+		if *asJSON {
+			for _, o := range res.Violations {
+				b, _ := json.Marshal(o)
+				fmt.Println(string(b))
+			}
+			return
+		}
 		for _, o := range res.Obs {
 			st := "ok  "
 			if !o.OK {
